@@ -20,6 +20,10 @@ var c10Configs = []Config{
 	{KM: "localkm", CA: "localca", ViaCLI: true},
 	{KM: "localkm", CA: "memca", ViaCLI: false},
 	{KM: "memkm", CA: "localca", ViaCLI: false},
+	{KM: "memkm", CA: "gcsca", LongLived: true},
+	{KM: "localkm", CA: "gcsca", LongLived: true},
+	{KM: "memkm", CA: "memca", LongLived: true},
+	{KM: "localkm", CA: "localca", LongLived: true},
 }
 
 const c10MaxK = 128
